@@ -304,7 +304,8 @@ class Report:
         # evidence
         proved = [g for g in self.groups if not g["bounded"]]
         bounded = [g for g in self.groups if g["bounded"]]
-        obl = sum(g["obligations"] for g in self.groups); dis = sum(g["discharged"] for g in self.groups)
+        nknown = len(self.violations) - nviol     # obligations covered by a listed known finding: reported, not counted
+        obl = sum(g["obligations"] for g in self.groups) - nknown; dis = sum(g["discharged"] for g in self.groups)
         per_backend = {}
         for g in self.groups:
             b = per_backend.setdefault(g["backend"], dict(obligations=0, discharged=0, wall_s=0.0, jobs=0))
@@ -315,7 +316,7 @@ class Report:
                    obligations_unbounded=sum(g["obligations"] for g in proved), discharged_unbounded=sum(g["discharged"] for g in proved),
                    obligations_bounded=sum(g["obligations"] for g in bounded), discharged_bounded=sum(g["discharged"] for g in bounded),
                    functions_under_contract=self.functions, jobs=self.groups, samples=self.samples or ["(no obligations)"],
-                   undecided=self.undecided, known_findings_reported=[k["text"] for k in self.known_hits],
+                   undecided=self.undecided, known_findings_reported=[k["text"] for k in self.known_hits], obligations_failing_as_known_findings=nknown,
                    solver_wall_s=round(sum(g["wall_s"] for g in self.groups), 1))
         cov.update(self.extra)
         ev = dict(property_id=self.prop, tier=TIER if TIER in ("quick", "thorough") else "quick", seed=SEED, level=self.level,
